@@ -174,6 +174,10 @@ def replay_maf(rep: Report, cases: list, rng: random.Random, budget: int):
             y = mod.transform(x, cnd)
             state = (y, 0)
             ub = unwrap(mod)                    # inv_scan_fn is public but, unlike the four methods, does not unwrap
+            if not hasattr(ub, "inv_scan_fn"):  # the staging of the inverse is an implementation detail: C01 judges the result
+                rep.note("model-drift Masks: MaskedAutoregressive has no inv_scan_fn; the pass-by-pass staging of the inverse is not observed")
+                rep.add("drift_no_inv_scan_fn")
+                continue
             for r in range(dim):
                 state, _ = ub.inv_scan_fn(state, None, cnd)
                 cur = np.asarray(state[0])
